@@ -130,4 +130,10 @@ func VerifC12_NewThenUse() {
 	}
 	pc, perr = s.ProposerConfig(context.Background(), nil, phase0.BLSPubKey{7})
 	vnd.Assert(perr == nil && pc.FeeRecipient[0] == 0x11, "C12.new.later-refresh-goes-through")
+	// configuration and registrations are for the validators that are about to be active: every
+	// question to the account manager (at start-up and from the periodic jobs) was about the next epoch
+	vnd.Assert(len(a.asked) > 0, "C11.new.account-manager-consulted")
+	for _, e := range a.asked {
+		vnd.Assert(e == ct.CurrentEpoch()+1, "C11.new.accounts-of-the-next-epoch-are-what-is-configured-and-registered")
+	}
 }
